@@ -121,6 +121,7 @@ def run(tier):
     for f in sorted(funcs, key=lambda g: (g.display, g.id)):
         calls = [n.get("callee") or "" for n in f.stmts.values() if n["k"] in ("CallExpr", "CXXMemberCallExpr")]
         uses_helper = any(c.endswith("::findSingleEigenValue") for c in calls)
+        C05.orientation_rule(rep, f)
         sub = Report("C24", tier, "other", RULE)
         C05.guard_rule(sub, f)
         n = sub.analysed.get("divisions by an eigenvalue difference", 0)
